@@ -705,6 +705,24 @@ func (fc *FnCtx) backEdge(li *loopInfo, st *State, cond Term) {
 		tags := append([]string{"C02"}, inv.Tags...)
 		fc.obligeSplit(from, "inv-pres", t, fmt.Sprintf("loop %d invariant preserved: %s", li.ordinal, inv.Text), tags, inv.Label)
 	}
+	// step clauses: relation between the state at the head of this iteration (prev) and the state at its back edge
+	if li.lc != nil && len(li.lc.Steps) > 0 && li.headState != nil {
+		env.prevEnv = fc.loopEnv(li.headState, li)
+		for _, sc := range li.lc.Steps {
+			if fc.dropped[sc] {
+				continue
+			}
+			t, err := env.EvalBool(sc.Expr)
+			if err != nil {
+				fc.dropped[sc] = true
+				fc.w.warnings = append(fc.w.warnings, fmt.Sprintf("%s:%d: step clause not applicable: %v", sc.File, sc.Line, err))
+				continue
+			}
+			tags := append([]string{"C02"}, sc.Tags...)
+			fc.obligeSplit(from, "step", t, fmt.Sprintf("loop %d step: %s", li.ordinal, sc.Text), tags, sc.Label)
+		}
+		env.prevEnv = nil
+	}
 	// termination
 	ves := fc.variantExprs(li)
 	if len(ves) == 0 && (li.hiddenIdx != nil || li.iterID != "") {
